@@ -104,6 +104,8 @@ func Check(v any) error {
 	}
 
 	// Check names
+	names := map[string]bool{"id": true}
+
 	for i := 0; i < value.NumField(); i++ {
 		sf := value.Type().Field(i)
 		apiTag := sf.Tag.Get("api")
@@ -120,6 +122,18 @@ func Check(v any) error {
 				resType,
 			)
 		}
+
+		// A name can only be used once and id is reserved.
+		if names[sf.Tag.Get("json")] {
+			return fmt.Errorf(
+				"jsonapi: name %q of field %q of type %q is already used",
+				sf.Tag.Get("json"),
+				sf.Name,
+				resType,
+			)
+		}
+
+		names[sf.Tag.Get("json")] = true
 	}
 
 	return nil
